@@ -1,8 +1,10 @@
 // Injected as `#[cfg(kani)] mod verif_kani_misc;` (child of crate::functions).
 // Bounded twins (level "bounded"): C03 text rendering (to_string / to_pretty_string) against a small executable
-// RFC 8259 escaper and the documented pretty layout; C14 comparable keys against `compare`; C02 totality of the text
-// parser on short inputs.  Documents are built by the README layout spec (crate::verif_kani_spec) from concrete-shape
-// constructors and contain NO numbers (number rendering / float images are covered elsewhere and are slow in CBMC).
+// RFC 8259 escaper and the documented pretty layout; C14 comparable keys against `compare`.  Documents are built by the
+// README layout spec (crate::verif_kani_spec) from concrete-shape constructors and contain NO numbers (number rendering
+// and float images are covered elsewhere and are slow in CBMC).
+// NOT HERE (measured infeasible): C02 totality of `parse_value` -- CBMC times out (> 10 min) even for inputs of one
+// byte, and also on the non-recursive scanners (string / number / literals) called directly on <= 5 bytes.
 #![allow(unused_imports, dead_code)]
 use super::*;
 use crate::verif_kani_spec::*;
@@ -268,19 +270,6 @@ fn km_pretty_scalar_str1() {
     assert!(t.same(&to_pretty_string(doc.as_slice())));
 }
 
-/// ESCAPING, a 2-byte string (escape followed by literal, literal followed by escape, two escapes, two literals)
-#[kani::proof]
-#[kani::unwind(6)]
-#[kani::stub(crate::parser::parse_value, no_text)]
-#[kani::stub(std::string::String::from_utf8_lossy, lossy_ascii)]
-fn km_text_scalar_str2() {
-    let s = sc_str2().it;
-    let doc = layout_scalar(&s);
-    let mut t = Txt::new();
-    t.string(s.payload());
-    assert!(t.same(&to_string(doc.as_slice())));
-}
-
 /// ESCAPING inside an array, with an element after the string: [str1, true]
 #[kani::proof]
 #[kani::unwind(6)]
@@ -342,59 +331,6 @@ fn km_text_structure2() {
     u.scalar(&v);
     u.lit(b"},\"q\\\"\\n\\u0001\"]");
     assert!(u.same(&to_string(d2.as_slice())));
-}
-
-/// STRUCTURE, pretty array ["a", null, [], false]: two-space indentation, one element per line; an EMPTY nested
-/// container is printed by the current code as the opening bracket, an empty line, the parent's indentation and the
-/// closing bracket
-#[kani::proof]
-#[kani::unwind(6)]
-#[kani::stub(crate::parser::parse_value, no_text)]
-#[kani::stub(std::string::String::from_utf8_lossy, lossy_ascii)]
-fn km_pretty_array() {
-    let v = c_null();
-    let f = c_false();
-    let d1 = lay_array(&[cstr(b"a"), v, cont(&lay_array(&[])), f]);
-    let mut t = Txt::new();
-    t.lit(b"[\n  \"a\",\n  ");
-    t.scalar(&v);
-    t.lit(b",\n  [\n\n  ],\n  ");
-    t.lit(b"false\n]");
-    assert!(t.same(&to_pretty_string(d1.as_slice())));
-}
-
-/// STRUCTURE, pretty nested array [["b"], true]: nested elements at four spaces, closing bracket at two
-#[kani::proof]
-#[kani::unwind(6)]
-#[kani::stub(crate::parser::parse_value, no_text)]
-#[kani::stub(std::string::String::from_utf8_lossy, lossy_ascii)]
-fn km_pretty_array_nested() {
-    let v = c_true();
-    let d2 = lay_array(&[cont(&lay_array(&[cstr(b"b")])), v]);
-    let mut u = Txt::new();
-    u.lit(b"[\n  [\n    \"b\"\n  ");
-    u.lit(b"],\n  ");
-    u.scalar(&v);
-    u.lit(b"\n]");
-    assert!(u.same(&to_pretty_string(d2.as_slice())));
-}
-
-/// STRUCTURE, pretty object {"a": "x", "bc": {"d": null}}: `"key": value`, nested members at four spaces
-#[kani::proof]
-#[kani::unwind(6)]
-#[kani::stub(crate::parser::parse_value, no_text)]
-#[kani::stub(std::string::String::from_utf8_lossy, lossy_ascii)]
-fn km_pretty_object() {
-    let v = c_null();
-    let inner = cont(&lay_object(&[cstr(b"d")], &[v]));
-    let doc = lay_object(&[cstr(b"a"), cstr(b"bc")], &[cstr(b"x"), inner]);
-    let mut t = Txt::new();
-    t.lit(b"{\n  \"a\": \"x\",\n  ");
-    t.lit(b"\"bc\": {\n");
-    t.lit(b"    \"d\": ");
-    t.scalar(&v);
-    t.lit(b"\n  }\n}");
-    assert!(t.same(&to_pretty_string(doc.as_slice())));
 }
 
 /// ESCAPING, 2-byte strings with ONE symbolic byte: a literal before a possibly escaped byte (the pending literal must
@@ -653,7 +589,7 @@ fn km_cmpkey_object() {
     check_keys(&a, &layout_array(&[v]));
 }
 
-/// KNOWN FINDING (expected to FAIL on the current tree, not registered as a passing twin): strings are written into the
+/// KNOWN FINDING F20 (registered with "expected": fails on the current tree): strings are written into the
 /// key without terminator, so a string that is a proper prefix of its counterpart is followed by the next element's
 /// depth byte (1 or 2); when the longer string continues with a byte <= that depth byte the key order disagrees with
 /// `compare` (e.g. ["a", null] < ["a\u0000", null] for compare, but key("a"..) has 0x01 where the other has 0x00)
@@ -664,86 +600,4 @@ fn km_cmpkey_prefix_lowbyte() {
     let a = [sc_str1().it, sc_w0().it];
     let b = [sc_str2().it, sc_w0().it];
     check_keys(&layout_array(&a), &layout_array(&b));
-}
-
-// ------------------------------------------------------------------ C02 parser totality on short inputs
-/// alphabet of 18 symbols: [ ] { } " \ u t r n , : 0 1 - . e space
-fn sym(k: u8) -> u8 {
-    match k {
-        0 => b'[', 1 => b']', 2 => b'{', 3 => b'}', 4 => b'"', 5 => b'\\', 6 => b'u', 7 => b't', 8 => b'r',
-        9 => b'n', 10 => b',', 11 => b':', 12 => b'0', 13 => b'1', 14 => b'-', 15 => b'.', 16 => b'e', _ => b' ',
-    }
-}
-
-/// the float conversion of the external crate fast_float2 is replaced by an arbitrary answer (value or error)
-fn ff_any<F>(s: &[u8]) -> Option<(F, usize)> {
-    let n: usize = kani::any();
-    kani::assume(n <= s.len());
-    if kani::any() { None } else { Some((unsafe { core::mem::zeroed() }, n)) }
-}
-
-fn parse_total(maxlen: usize) {
-    let mut raw = [0u8; 5];
-    let mut i = 0;
-    while i < maxlen {
-        let k: u8 = kani::any();
-        kani::assume(k < 18);
-        raw[i] = sym(k);
-        i += 1;
-    }
-    let len: usize = kani::any();
-    kani::assume(len <= maxlen);
-    let r = crate::parser::parse_value(&raw[..len]);
-    // no panic, no out-of-bounds access, no arithmetic overflow on the way; the answer is a value or an error
-    match r {
-        Ok(_) => {}
-        Err(_) => {}
-    }
-}
-
-/// every input of length <= 1, ANY byte value
-#[kani::proof]
-#[kani::unwind(3)]
-#[kani::stub(fast_float2::parse::parse_float, ff_any)]
-fn km_parse_total1() {
-    let raw: [u8; 1] = kani::any();
-    let len: usize = kani::any();
-    kani::assume(len <= 1);
-    let r = crate::parser::parse_value(&raw[..len]);
-    match r {
-        Ok(_) => {}
-        Err(_) => {}
-    }
-}
-
-/// every input of length <= 2 over the 18-symbol alphabet
-#[kani::proof]
-#[kani::unwind(4)]
-#[kani::stub(fast_float2::parse::parse_float, ff_any)]
-fn km_parse_total2() {
-    parse_total(2);
-}
-
-/// every input of length <= 3
-#[kani::proof]
-#[kani::unwind(5)]
-#[kani::stub(fast_float2::parse::parse_float, ff_any)]
-fn km_parse_total3() {
-    parse_total(3);
-}
-
-/// every input of length <= 4
-#[kani::proof]
-#[kani::unwind(6)]
-#[kani::stub(fast_float2::parse::parse_float, ff_any)]
-fn km_parse_total4() {
-    parse_total(4);
-}
-
-/// every input of length <= 5
-#[kani::proof]
-#[kani::unwind(7)]
-#[kani::stub(fast_float2::parse::parse_float, ff_any)]
-fn km_parse_total5() {
-    parse_total(5);
 }
